@@ -9,7 +9,7 @@ Open Scope N_scope.
 Inductive ptype := PComment | PNewline | PBackslash | PBom | PFormfeed | PSpacing.
 Record part := mkPart { p_type : ptype; p_value : str; p_spacing : str; p_line : N; p_col : Z }.
 
-Inductive perr := PAttrError | PKeyError | PFuel.
+Inductive perr := PAttrError | PKeyError | PFuel | PGuardP.
 Inductive pres := POk (l : list part) | PErr (e : perr).
 
 Definition ptype_of_code (n : N) : ptype :=
@@ -43,7 +43,10 @@ Fixpoint split_loop (fuel : nat) (p : str) (line : N) (column : Z) (start : N) (
           let spacing := sub p a1 b1 in
           let value := sub p a2 b2 in
           match value with
-          | [] => POk (acc ++ [mkPart PSpacing spacing [] line (column + Z.of_N start - (if bomf then 1 else 0))%Z])
+          | [] =>
+            (* guard: an empty value is matched only at the end of the prefix (`$`); the Python code would drop the rest silently *)
+            if e =? len p then POk (acc ++ [mkPart PSpacing spacing [] line (column + Z.of_N start - (if bomf then 1 else 0))%Z])
+            else PErr PGuardP
           | c :: _ =>
             match assocN c types with
             | None => PErr PKeyError
